@@ -134,7 +134,7 @@ def boolalg_runs(t: str):
             ("and2-or2-nand-nor", dict(vars_='{"x", "y"}', consts="{0, 1, 2}", box="-2..4", shapes='{"and2", "or2", "nand2", "nor2"}'),
              ["assign", "ifelse_pass"], 50),
             ("x-only-lits", dict(vars_='{"x"}', consts="{0, 1, 2}", box="-2..4", shapes='{"lit2", "nand2", "nor2"}'), list(TEMPLATES), 10),
-            ("x-only-3", dict(vars_='{"x"}', consts="{0, 1, 2}", box="-2..4", shapes='{"and3", "or3", "mixed"}'), ["assign"], 0),
+            ("x-only-3", dict(vars_='{"x"}', consts="{0, 2}", box="-2..4", shapes='{"and3", "or3", "mixed"}'), ["assign"], 0),       # 3 constants: > 50 min in TLC
             ("chains", dict(vars_='{"x", "y"}', consts="{0, 1, 2}", box="-2..4", shapes='{"chain"}'), list(TEMPLATES), 4),
             ("chains-mixed", dict(vars_='{"x"}', consts="{0, 2}", box="-2..4", shapes='{"chain2"}'), ["assign", "ifelse_pass", "for_if", "return"], 20)]
 
